@@ -18,7 +18,7 @@ import (
 // C14 — parsers, profiles and read-only URL values are safe for concurrent use.
 
 type Op14 struct {
-	Kind  string `json:"kind"` // parse parseref resolve getters clone encode derive
+	Kind  string `json:"kind"` // parse parse-other parseref resolve getters spread clone encode derive
 	Base  int    `json:"base"`
 	Value B      `json:"value,omitempty"`
 	Set   int    `json:"set,omitempty"`
@@ -58,7 +58,7 @@ func result14(u *url.Url, err error) string {
 	return strings.Join(o[:], " | ") + fmt.Sprintf(" | %v %v %d %v %v %q %q", u.IsIPv4(), u.IsIPv6(), u.DecodedPort(), u.OpaquePath(), u.IsSpecialScheme(), u.Fragment(), u.Query())
 }
 
-func run14(c Case14, p url.Parser, bases []*url.Url, o Op14) string {
+func run14(c Case14, p url.Parser, bases []*url.Url, touched []bool, o Op14) string {
 	var b *url.Url
 	var bs string
 	if len(bases) > 0 {
@@ -94,6 +94,16 @@ func run14(c Case14, p url.Parser, bases []*url.Url, o Op14) string {
 			return "no base"
 		}
 		return result14(b.Clone(), nil)
+	case "spread":
+		// reads through the parameter-list handle of a shared URL — only where the handle was created
+		// before the URL was shared (creating it is a write, §7.4); with the list in place
+		// SearchParams() just returns it, and Get / Has / GetAll / String only read
+		bi := o.Base % max(len(bases), 1)
+		if b == nil || bi >= len(touched) || !touched[bi] {
+			return "no handle"
+		}
+		sp, n := b.SearchParams(), string(o.Value)
+		return fmt.Sprintf("%q %v %q %q", sp.Get(n), sp.Has(n), sp.GetAll(n), sp.String())
 	case "encode":
 		return p.PercentEncodeString(string(o.Value), NamedSets[o.Set%len(NamedSets)].Set)
 	case "derive":
@@ -222,7 +232,7 @@ func Check14(c Case14, r *core.Rec) {
 			}()
 			<-start
 			for _, o := range c.Scripts[g] {
-				got[g] = append(got[g], run14(c, p, live.urls, remap(o, live)))
+				got[g] = append(got[g], run14(c, p, live.urls, live.touched, remap(o, live)))
 			}
 		}(g)
 	}
@@ -240,7 +250,7 @@ func Check14(c Case14, r *core.Rec) {
 				continue
 			}
 			switch o.Kind {
-			case "resolve", "getters", "clone", "parseref":
+			case "resolve", "getters", "clone", "parseref", "spread":
 				bi := o.Base % len(live.urls)
 				if !seen[bi] {
 					seen[bi] = true
@@ -286,7 +296,7 @@ func Check14(c Case14, r *core.Rec) {
 			// the operation evaluated just before
 			_, _ = url.Parse("http://flush.example/?flush#flush")
 			_, _ = interferingParsers[0].Parse("http://flush2.example/")
-			expected[g] = append(expected[g], run14(c, pp, plive.urls, remap(o, plive)))
+			expected[g] = append(expected[g], run14(c, pp, plive.urls, plive.touched, remap(o, plive)))
 		}
 	}
 	for g := range c.Scripts {
@@ -332,7 +342,7 @@ var c14LongPath = "http://h/" + strings.Repeat("seg/", 40) + "x?q=1#f"
 
 var c14Bases = []string{c14LongPath, "foo://h/" + strings.Repeat("a/", 33), "file:///C:/d/e?q=1#f", "foo:opaque?q#f", "mailto:a@b  ?x", "http://h/p?a=1&b=2#f", "http://u:p@h:8/a/b/c?k=v#f", "foo://h/p?x=y", "file:///C:/d/e?q=1", "http://1.2.3.4/x?y", "http://[::1]/?z", "foo:/p/q?r", "http://example.com/a/b/../c?d=e&f", "https://faß.de/ä?ö#ü", "ws://h/", "http://h/a//b/"}
 var c14Refs = []string{"x", "/y", "../z", "?q=1", "#f", "", "//other/p", "http://abs/", "./a/b", "C|/x", "\\\\h\\p", " a b ", "%zz", "é", "//[::2]/", "//9.8.7.6/", "a?b#c"}
-var c14Inputs = []string{"http://a\u200db.example/", "http://xn--a.example/", "http://a\u200db.example/", "https://\u05d01.com/", "http://example.com/", "HTTP://EXAMPLE.com:80/a/../b?x#y", "foo:bar", "file:///C|/x", "http://[1:0:0:2::3]/", "http://0x7f.1/", "http://faß.de/", "not a url", "http://h:99999/", "www.example.com/path", "http://a b/", "http://h/%zz?%zz#%zz", "http://u:p@h/", "//h", "http://h/?b=2&a=1&a=0", "https://日本語.jp/パス"}
+var c14Inputs = []string{"http://ab\xff/", "http://éb\xff/", "http://\xffh.example/p", "http://日本\xfe\xff.jp/", "http://a\u200db.example/", "http://xn--a.example/", "http://a\u200db.example/", "https://\u05d01.com/", "http://example.com/", "HTTP://EXAMPLE.com:80/a/../b?x#y", "foo:bar", "file:///C|/x", "http://[1:0:0:2::3]/", "http://0x7f.1/", "http://faß.de/", "not a url", "http://h:99999/", "www.example.com/path", "http://a b/", "http://h/%zz?%zz#%zz", "http://u:p@h/", "//h", "http://h/?b=2&a=1&a=0", "https://日本語.jp/パス"}
 
 func Gen14(t *rapid.T) Case14 {
 	var c Case14
@@ -383,7 +393,7 @@ func Gen14(t *rapid.T) Case14 {
 		c.Setup = append(c.Setup, setup)
 	}
 	ng := rapid.IntRange(2, 8).Draw(t, "goroutines")
-	kinds := []string{"resolve", "resolve", "resolve", "getters", "getters", "clone", "parse", "parse", "parse-other", "parseref", "encode", "derive"}
+	kinds := []string{"resolve", "resolve", "resolve", "getters", "getters", "clone", "parse", "parse", "parse-other", "parseref", "encode", "derive", "spread", "spread"}
 	for g := 0; g < ng; g++ {
 		n := rapid.IntRange(1, 6).Draw(t, "nops")
 		var script []Op14
@@ -402,6 +412,8 @@ func Gen14(t *rapid.T) Case14 {
 				} else {
 					o.Value = B(gen.Pick(t, "input", c14Inputs))
 				}
+			case "spread":
+				o.Value = B(gen.Pick(t, "spname", []string{"a", "q", "k", "x", "", "d"}))
 			case "encode":
 				o.Value = B(gen.Pick(t, "input", c14Inputs))
 				o.Set = rapid.IntRange(0, len(NamedSets)-1).Draw(t, "set")
@@ -418,7 +430,7 @@ func Gen14(t *rapid.T) Case14 {
 
 var P14 = core.Register(core.Prop[Case14]{
 	ID: "C14",
-	Rule: "generated concurrent programs: one shared parser (package-level functions, default parser, one of the four predefined profiles, or 1..4 generated options), 1..3 shared base URLs parsed with it, a third of them with a sequential history of 1..3 setters / resolutions / clones behind them, half never touched after that (so lazily created state does not exist yet), 2..8 goroutines released from one barrier, each with a script of 1..6 read-only operations (Parse, the same through a second differently configured parser, ParseRef with a shared base string, (*Url).Parse on a shared base, all pure getters of a shared base, Clone of a shared base, PercentEncodeString with shared named sets, Set/Clear derivations from shared named sets); " +
+	Rule: "generated concurrent programs: one shared parser (package-level functions, default parser, one of the four predefined profiles, or 1..4 generated options), 1..3 shared base URLs parsed with it, a third of them with a sequential history of 1..3 setters / resolutions / clones behind them, half never touched after that (so lazily created state does not exist yet), 2..8 goroutines released from one barrier, each with a script of 1..6 read-only operations (Parse, the same through a second differently configured parser, ParseRef with a shared base string, (*Url).Parse on a shared base, all pure getters of a shared base, Get / Has / GetAll / String through the parameter-list handle of a shared base where that handle was created before sharing, Clone of a shared base, PercentEncodeString with shared named sets, Set/Clear derivations from shared named sets); " +
 		"oracle (test binary built with -race): (1) the race detector's log does not grow during the program, (2) every operation's result equals the result of the same operation run alone on private copies, (3) fingerprints of every exported package-level table and behavioural probes of the unexported ones are unchanged; " +
 		"non-trivial = at least 2 goroutines use the same base URL and at least one of them resolves against it; distinct by hash of the program",
 	Gen:   Gen14,
